@@ -204,3 +204,13 @@ S(id="API.err.raise", props=["C15", "C12"], spec="err.spec.c", harness="h_yaep_e
   what="faithful mode (real variadic text): the code raised is stored in the current grammar and is the value the API call returns; the message is formatted into the "
        "object's buffer with a size that fits it, is non-empty and NUL-terminated; yaep_error never returns",
   assumes=["A2: models of vsnprintf (writes at most n-1 characters and a NUL) and longjmp (never returns)"])
+
+# ---------------- C12 / C11: description lexer ----------------
+S(id="UB.lex", props=["C12", "C11"], spec="lex.spec.c", harness="h_yylex", mode="U", loops=True, n_loops=5, canaries=6, split=16, timeout=900, object_bits=10,
+  enforce=["yaep_yylex/yylex_c"], replace=["verif_error_exit/err_lex_c", "strcmp/strcmp_c"], defines=["__ctype_b_loc=verif_ctype_b_loc"],
+  params={"quick": {"LEXN": 12}, "thorough": {"LEXN": 48}}, functions=["yylex (sgramm.y)", "yyerror"],
+  what="the cursor never moves past the terminating NUL of the description (all five loops closed by invariants); number accumulation and line counter do not overflow; "
+       "token kinds by first character ('c' => CHAR with closing quote, digits => NUMBER, letters => IDENT/SEM_IDENT/TERM, punctuation, end of text); "
+       "a syntax error reports a line number inside the text",
+  assumes=["A2: glibc C-locale ctype table (models/ctype_table.h)",
+           "stated drop: token-text writes to the object stack `stoks' are no-ops in this set (covered by OS.top.*); strcmp against \"TERM\" abstracted"])
